@@ -529,6 +529,15 @@ def check_nsga2(case):
         out.violate('nsga2/population/after_update/' + d[0],
                     'step %d: %s' % (i, d[1][:800]))
         return out
+      # a hosting policy saves the designer state after every request, also
+      # when the instance is kept: dump() of a live instance is called many
+      # times, and what it returns is what the next restart loads
+      with lib.clock(t):
+        try:
+          a.dump()
+          b.dump()
+        except Exception:  # pylint: disable=broad-except
+          pass  # judged below, where the restart needs the dump
       if step['restart']:
         path = step['restart']
         with lib.clock(t):
@@ -821,6 +830,10 @@ def service_strategy(draw):
       steps.append({'count': draw(st.integers(3, 5)), 'fb': draw(st.lists(
           lib.feedback(1, False), max_size=5)), 'restart': draw(
               st.sampled_from([None, 'recreate'])), 'dt': 1})
+  # some of the restarts delete the study and create it again instead
+  for k, step in enumerate(steps):
+    if k and step['restart'] and draw(lib.chance(15)):
+      step['restart'] = 'delete_recreate'
   return {'algo': algo, 'variant': variant, 'space': space,
           'goal': draw(st.sampled_from(['MAXIMIZE', 'MINIMIZE'])),
           't0': draw(lib.t0()), 'steps': steps}
@@ -884,22 +897,24 @@ def check_service(case):
     sname = study.name
     problem = svz.StudyConfig.from_proto(study.study_spec).to_problem()
     t = case['t0']
-    with lib.clock(t + case['steps'][0]['dt'], 60.0):
-      try:
+
+    def make_a(now):
+      with lib.clock(now, 60.0):
         if algo == 'GRID_SEARCH':
-          a = grid.GridSearchDesigner.from_problem(problem)
-        elif algo == 'SHUFFLED_GRID_SEARCH':
+          return grid.GridSearchDesigner.from_problem(problem)
+        if algo == 'SHUFFLED_GRID_SEARCH':
           import time
-          a = grid.GridSearchDesigner.from_problem(problem,
-                                                   seed=int(time.time()))
-        elif algo == 'QUASI_RANDOM_SEARCH':
-          a = quasi_random.QuasiRandomDesigner.from_problem(problem)
-        else:
-          from vizier._src.algorithms.designers.eagle_strategy import eagle_strategy as es
-          a = es.EagleStrategyDesigner(problem)
-      except Exception as e:  # pylint: disable=broad-except
-        out.cls('A_raises:ctor:' + _exc(e))
-        return out
+          return grid.GridSearchDesigner.from_problem(problem,
+                                                      seed=int(time.time()))
+        if algo == 'QUASI_RANDOM_SEARCH':
+          return quasi_random.QuasiRandomDesigner.from_problem(problem)
+        from vizier._src.algorithms.designers.eagle_strategy import eagle_strategy as es
+        return es.EagleStrategyDesigner(problem)
+    try:
+      a = make_a(t + case['steps'][0]['dt'])
+    except Exception as e:  # pylint: disable=broad-except
+      out.cls('A_raises:ctor:' + _exc(e))
+      return out
     fed = set()  # ids of completed trials already given to A
     pending = []  # trial ids ACTIVE in the service, oldest first
     completed_any = False
@@ -908,7 +923,21 @@ def check_service(case):
     seq = []  # all suggested parameter dicts, in order
     for i, step in enumerate(case['steps']):
       t += step['dt']
-      if step['restart']:
+      if step['restart'] == 'delete_recreate' and i > 0:
+        # the study is deleted and created again under the same name by the
+        # same server process: a new study, whose algorithm starts afresh
+        s.DeleteStudy(vsp.DeleteStudyRequest(name=sname))
+        study = svc.create_study(s, 'o', 's', config=sc)
+        assert study.name == sname
+        try:
+          a = make_a(t)
+        except Exception as e:  # pylint: disable=broad-except
+          out.cls('A_raises:ctor:' + _exc(e))
+          return out
+        fed, pending, seq = set(), [], []
+        completed_any = False
+        out.cls('study_deleted_and_recreated')
+      elif step['restart']:
         svc.close_servicer(s)
         s = svc.make_servicer('sqlfile', policy_factory=pf, dbpath=dbpath)
         recreations += 1
